@@ -88,10 +88,31 @@ def build_backend(scr, be):
     return exe
 
 
+def build_plain(scr, kind):
+    """library sources + a harness compiled directly (no Makefile): kind = tsan (harness/mt.c),
+    plain (harness/drive.c without sanitizers, for valgrind/callgrind), cli (bin/*.c under ASan+UBSan)"""
+    d = scr.copy_repo("p_" + kind)
+    srcs = sorted(os.path.join(d, "src", x) for x in os.listdir(os.path.join(d, "src")) if x.endswith(".c"))
+    srcs += sorted(os.path.join(d, "partial/idn2", x) for x in os.listdir(os.path.join(d, "partial/idn2")) if x.endswith(".c"))
+    base = ["-std=gnu99", "-D_DEFAULT_SOURCE", "-D_XOPEN_SOURCE=700", "-DHAVE_LIBIDN2", "-I" + os.path.join(d, "include"), "-I" + d]
+    if kind == "tsan":
+        cmd = [CC, "-O1", "-g", "-fsanitize=thread"] + base + srcs + [os.path.join(VERIF, "harness/mt.c"), "-lidn2", "-lpthread"]
+    elif kind == "plain":
+        cmd = ["gcc", "-O1", "-g"] + base + srcs + [os.path.join(VERIF, "harness/drive.c"), "-lidn2", "-Wl,--wrap=idn2_to_ascii_8z"]
+    elif kind == "cli":
+        cmd = [CC] + SAN.split() + base + ["-D__EXTENSIONS__"] + srcs + [os.path.join(d, "bin/main.c"), os.path.join(d, "bin/utf8_decode.c"), "-lidn2"]
+    exe = os.path.join(d, kind + ".exe")
+    p = subprocess.run(cmd + ["-o", exe], stdout=subprocess.PIPE, stderr=subprocess.STDOUT)
+    if p.returncode != 0:
+        raise BuildError("%s build fails:\n%s" % (kind, p.stdout.decode(errors="replace")[-3000:]))
+    return exe
+
+
 def build_variants(scr, names):
     from concurrent.futures import ThreadPoolExecutor
     with ThreadPoolExecutor(max_workers=8) as ex:
-        futs = {n: (ex.submit(build_backend, scr, n[3:]) if n.startswith("be:") else ex.submit(build_variant, scr, n)) for n in names}
+        futs = {n: (ex.submit(build_backend, scr, n[3:]) if n.startswith("be:") else ex.submit(build_plain, scr, n[2:]) if n.startswith("x:")
+                    else ex.submit(build_variant, scr, n)) for n in names}
         return {n: f.result() for n, f in futs.items()}
 
 
